@@ -64,6 +64,13 @@ def same_strategies(r0, r1, perm, acts, idx):
 
 def compare(ctx, r0, r1, perm, acts, guard):
     inp = dict(r0.inp(), transformed=enc(r1.game), transformed_repr=repr(r1.game))
+    if "timeout" in r0.res or "timeout" in r1.res:
+        # one of the two numberings did not return within the time limit: the claim is about what the solver DECLARES; whether it
+        # returns at all is C06's claim, for stopping games. (Seen once, thorough seed 50: an 'exact' game with zero-reward
+        # player-only cycles solves in one numbering and rotates its probability diagnostic round such a cycle for ever in
+        # another - the mechanism of known finding K5, on a game that is not a stopping game.)
+        ctx.count("one numbering did not return within the time limit (not compared)")
+        return
     if r0.ok != r1.ok or (not r0.ok and r0.describe() != r1.describe()):
         ctx.violation("solvability/outcome changes under renaming: %s vs %s" % (r0.describe(), r1.describe()), inp)
         return
